@@ -207,6 +207,10 @@ def run_deflate(c, P):
                 # (content of a compressed message does not influence pristine lomond's control flow; in the replay it is chosen
                 #  so that the real DEFLATE output is not itself well-formed UTF-8 - aa af 07 00 - as deflate output rarely is)
                 pay = [0x7F, 0x7F]
+        if c.concrete is not None and kind in ('c-text', 'c-binary') and negotiate and valid and pay != [0x7F, 0x7F] and P.get('history_payloads', True):
+            # replay with the REAL zlib: content that pristine lomond's control flow does not depend on is chosen so that real DEFLATE
+            # back-references the previous message (a match needs >= 3 equal bytes): a lost inflate context then really fails to inflate
+            pay = list(pay) + list(b'-lomond-lomond-lomond')
         op = 1 if kind == 'c-text' else 2
         if kind.startswith('c-') and negotiate and valid:
             body = deflater.compress(pay)
